@@ -38,6 +38,15 @@ type Server struct {
 	NotReadyEvery int
 	StaleSeen     int
 	NotReady      int
+	// RespLevelLockEvery > 0: every n-th BatchGet that meets a lock answers with the lock in the response-level error
+	// field and no pairs (TiKV's answer for a lock found in its in-memory lock table)
+	RespLevelLockEvery int
+	RespLevelLocks     int
+	lockedBatchGets    int
+	// FallbackEvery > 0: every n-th async-commit / 1PC prewrite request is refused that mode (see PrewriteOpts.ForceFallback)
+	FallbackEvery  int
+	Fallbacks      int
+	asyncPrewrites int
 }
 
 // NewServer creates a server over a fresh store.
@@ -218,7 +227,23 @@ func (sv *Server) SendRequest(_ context.Context, addr string, req *tikvrpc.Reque
 		if re := check(r.Keys...); re != nil {
 			return tikvrpc.GenRegionErrorResp(req, re)
 		}
-		resp.Resp = &kvrpcpb.BatchGetResponse{Pairs: pbPairs(st.BatchGet(r.Keys, r.Version, sv.readOpts(&req.Context)))}
+		ps := st.BatchGet(r.Keys, r.Version, sv.readOpts(&req.Context))
+		out := &kvrpcpb.BatchGetResponse{Pairs: pbPairs(ps)}
+		if sv.RespLevelLockEvery > 0 {
+			// TiKV reports a lock it meets in its in-memory lock table for the whole request: the error sits in the
+			// response, there are no pairs at all
+			for _, p := range ps {
+				if p.Err != nil {
+					sv.lockedBatchGets++
+					if sv.lockedBatchGets%sv.RespLevelLockEvery == 0 {
+						out = &kvrpcpb.BatchGetResponse{Error: keyError(p.Err)}
+						sv.RespLevelLocks++
+					}
+					break
+				}
+			}
+		}
+		resp.Resp = out
 	case *kvrpcpb.ScanRequest:
 		o := sv.readOpts(&req.Context)
 		var ps []Pair
@@ -258,7 +283,15 @@ func (sv *Server) SendRequest(_ context.Context, addr string, req *tikvrpc.Reque
 		if re := check(ks...); re != nil {
 			return tikvrpc.GenRegionErrorResp(req, re)
 		}
-		res := st.Prewrite(r.Mutations, PrewriteOpts{StartTS: r.StartVersion, Primary: r.PrimaryLock, TTL: r.LockTtl, TxnSize: r.TxnSize, ForUpdateTS: r.ForUpdateTs,
+		force := false
+		if sv.FallbackEvery > 0 && (r.UseAsyncCommit || r.TryOnePc) {
+			sv.asyncPrewrites++
+			force = sv.asyncPrewrites%sv.FallbackEvery == 0
+			if force {
+				sv.Fallbacks++
+			}
+		}
+		res := st.Prewrite(r.Mutations, PrewriteOpts{ForceFallback: force, StartTS: r.StartVersion, Primary: r.PrimaryLock, TTL: r.LockTtl, TxnSize: r.TxnSize, ForUpdateTS: r.ForUpdateTs,
 			MinCommitTS: r.MinCommitTs, Actions: r.PessimisticActions, Resolved: req.Context.GetResolvedLocks(), Async: r.UseAsyncCommit, Secondaries: r.Secondaries,
 			TryOnePC: r.TryOnePc, MaxCommitTS: r.MaxCommitTs, IsRetry: req.Context.GetIsRetryRequest(), SkipConstraintForUnlocked: true, AssertionLevel: r.AssertionLevel})
 		out := &kvrpcpb.PrewriteResponse{MinCommitTs: res.MinCommitTS, OnePcCommitTs: res.OnePCCommit}
